@@ -133,13 +133,30 @@ def _inside(test, arm_body):
     return id(test) in ids
 
 
+_OP_ALIASES: dict = {}      # id(env) -> locals that only ever hold `<node>.op` (filled by _note_op_aliases)
+_KNOWN_OPS = {"+", "-", "*", "/", "**", "neg", "sin", "cos", "tan", "exp", "log", "sqrt", "abs", "tanh", "sinh", "cosh"}
+
+
+def _note_op_aliases(env):
+    """`operator = expr.op`: a local that is only ever bound to the operator of a node is an operator test subject too."""
+    names = set()
+    for nm, vals in env.items():
+        vs = [v for v in vals if isinstance(v, ast.AST)]
+        if vs and all(isinstance(v, ast.Attribute) and v.attr == "op" for v in vs):
+            names.add(nm)
+    _OP_ALIASES["current"] = names
+
+
 def op_of(site):
     """Set of operator literals consistent with the site's guards, or None when no op test is on the path."""
     pos, neg = None, set()
+    aliases = _OP_ALIASES.get("current", set())
     for t, pol in site.guards:
         for c in (conjuncts(t) if pol else [t]):
             p = op_test(c)
-            if p and (p[0] == "op" or p[0].endswith(".op")):
+            if p and p[0].isidentifier() and p[0] != "op" and p[0] not in aliases and set(p[1]) & _KNOWN_OPS:
+                raise AnalysisError(f"`{src(c)[:40]}` compares `{p[0]}` with operator literals, but `{p[0]}` is not read back to a node's .op: which operator an answer belongs to is not decided")
+            if p and (p[0] == "op" or p[0].endswith(".op") or p[0] in aliases):
                 lits, negated = set(p[1]), p[2]
                 positive = (pol and not negated) or (not pol and negated)
                 if positive:
@@ -351,6 +368,16 @@ def check_analyser(prog, rep, fi):
             elif form == "MAX-OVER-ELEMENTS":
                 # loop over elements recursing, None propagates
                 ok = _elements_loop_sound(arm)
+                skipped = None if ok else _element_skipped(arm)
+                if skipped is not None:
+                    rep.ob("R04.1", construct, False,
+                           f"the element loop skips an element when `{src(skipped.test)[:40]}` (line {skipped.lineno}) before its degree is taken: the answer is the maximum over SOME elements, so a non-polynomial element "
+                           f"does not stop the node from being classified polynomial -- and the skip depends on data (a weight array the node shares with its caller) that can change after the degree has been memoised", loc=f"{fi.module.rel}:{skipped.lineno}", detail="elements-max", robust=True)
+                    continue
+                if not ok:
+                    # the recogniser knows two spellings of the loop; another one is not a wrong one
+                    rep.undecided(f"{construct}: the element loop is not in a form this rule reads (analyse each element, answer None if one is None, keep the maximum): not decided")
+                    continue
                 rep.ob("R04.1", construct, ok, "answers the maximum over the element degrees, None if any element is non-polynomial" if ok else "element loop does not propagate None / does not take the maximum", loc=f"{fi.module.rel}:{s.node.lineno}", detail="elements-max")
             else:
                 rep.undecided(f"{construct}: answer form {form} not recognised")
@@ -366,6 +393,27 @@ def _gkey(site):
     return "|".join(sorted(("" if p else "!") + src(t)[:40] for t, p in site.guards))[:120] or "-"
 
 
+def _element_skipped(arm):
+    """An `if <test>: continue` in a loop over the node's elements that comes before the element's degree is taken."""
+    for loop in [n for st in arm.body for n in ast.walk(st) if isinstance(n, ast.For)]:
+        if "._expressions" not in src(loop.iter):
+            continue
+        analysed = [st.value.args[0].id for st in loop.body if isinstance(st, ast.Assign) and isinstance(st.value, ast.Call) and (dotted(st.value.func) or "").startswith("_compute_degree")
+                    and st.value.args and isinstance(st.value.args[0], ast.Name)]
+        if not analysed:
+            continue
+        for st in loop.body:
+            if isinstance(st, ast.Assign) and isinstance(st.value, ast.Call) and (dotted(st.value.func) or "").startswith("_compute_degree"):
+                break
+            if isinstance(st, ast.If) and len(st.body) == 1 and isinstance(st.body[0], ast.Continue) and not st.orelse:
+                # a skip decided by the element itself (`if isinstance(e, Constant): continue`) can be exact; one decided
+                # by something else -- a weight, an index -- leaves elements unanalysed
+                if any(isinstance(x, ast.Name) and x.id in analysed for x in ast.walk(st.test)):
+                    return None
+                return st
+    return None
+
+
 def _elements_loop_sound(arm, site=None, env=None):
     """The loop that produces a running maximum N: `for e in <..>._expressions: D = analyse(e); if D is None: <answer
     None>; N = max(N, D)` -- every element is analysed, None propagates, the maximum is kept.  Names are free."""
@@ -379,6 +427,12 @@ def _elements_loop_sound(arm, site=None, env=None):
         for st in loop.body:
             if isinstance(st, ast.Assign) and isinstance(st.targets[0], ast.Name) and isinstance(st.value, ast.Call) and (dotted(st.value.func) or "").startswith("_compute_degree") and st.value.args and src(st.value.args[0]) == elem:
                 D = st.targets[0].id
+            elif isinstance(st, ast.If) and D is not None and src(st.test) == f"{D} is not None" and st.orelse:
+                # if D is not None: N = max(N, D)  else: <answer None>
+                none_else = any((isinstance(x, ast.Return) and (x.value is None or (isinstance(x.value, ast.Constant) and x.value.value is None))) for x in st.orelse) or "append(None)" in src(st.orelse)
+                for y in st.body:
+                    if none_else and isinstance(y, ast.Assign) and isinstance(y.value, ast.Call) and dotted(y.value.func) == "max" and {src(a) for a in y.value.args} == {src(y.targets[0]), D}:
+                        none_checked = kept = True
             elif isinstance(st, ast.If) and D is not None and src(st.test) == f"{D} is None":
                 none_checked = any((isinstance(x, ast.Return) and (x.value is None or (isinstance(x.value, ast.Constant) and x.value.value is None))) for x in st.body) or "append(None)" in src(st.body)
             elif isinstance(st, ast.Assign) and D is not None and isinstance(st.value, ast.Call) and dotted(st.value.func) == "max" and none_checked:
@@ -411,6 +465,7 @@ def _arm_sites(d, arm):
 
 def _check_binary(prog, rep, fi, d, arm, env):
     fname = fi.name
+    _note_op_aliases(env)
     sites = _arm_sites(d, arm)
     ops = binary_ops(prog)
     for op in ops:
@@ -486,6 +541,7 @@ def _child_is(v, slot, env):
 
 def _check_unary(prog, rep, fi, d, arm, env):
     fname = fi.name
+    _note_op_aliases(env)
     sites = _arm_sites(d, arm)
     for s in sites:
         pos, neg = op_of(s)
@@ -507,6 +563,7 @@ def degree_forms(prog, fi, _other=None):
     _BOOL_ENV.clear()
     _BOOL_ENV.update(env)
     out = {}
+    _note_op_aliases(env)
     for k in prog.expression_kinds():
         arm = d.handler(prog, k)
         if arm is None:
